@@ -2,7 +2,7 @@
    Only ExtrOcamlBasic is used (bool, option, unit, list, prod, sumbool -> OCaml natives; andb/orb/fst/snd inlined);
    nat, positive, N and Z stay the inductive Coq types. *)
 From Coq Require Import ExtrOcamlBasic.
-From BB.Model Require Channel Cleaner Buffer Callable Retry Caster Workers Worker Attempt Context PubSubSanity Notifier ExclusiveAbs WaitCond CleanerProto CasterAbs CasterBridge NotifierLock ExclusiveVal.
+From BB.Model Require Channel Cleaner Buffer Callable Retry Caster Workers Worker Attempt Context PubSubSanity Notifier ExclusiveAbs WaitCond CleanerProto CasterAbs CasterBridge NotifierLock ExclusiveVal PubSubAbs PubSubSplit PubSubTag PubSubIdx PubSubTraceAux PubSubIter.
 Separate Extraction
   Channel.init Channel.step Channel.run Channel.spec_init Channel.spec_step Channel.spec_run Channel.abs
   Buffer.init Buffer.step Buffer.step_settled Buffer.run Buffer.clean Buffer.settle Buffer.buffer_range Buffer.pkg_range
@@ -23,6 +23,8 @@ Separate Extraction
   Notifier.subscribe_ctx Notifier.unsubscribe_ctx Notifier.publish_ready
   Notifier.ctx_of NotifierLock.linit NotifierLock.step NotifierLock.f_delivered NotifierLock.f_returned NotifierLock.no_reader
   ExclusiveVal.vinit ExclusiveVal.vstep ExclusiveVal.vterminalb ExclusiveVal.vproj ExclusiveVal.vproj_pick
+  PubSubSplit.xstep PubSubTraceAux.jstep PubSubTraceAux.jinit PubSubTraceAux.jcount_ok PubSubTraceAux.jrestb PubSubTraceAux.pick_at
+  PubSubIter.istep PubSubIter.iinit PubSubIter.iterminalb
   ExclusiveAbs.init ExclusiveAbs.step ExclusiveAbs.run ExclusiveAbs.observe ExclusiveAbs.all_picks ExclusiveAbs.all_vars ExclusiveAbs.terminalb
   WaitCond.init WaitCond.step
   CleanerProto.init CleanerProto.step CleanerProto.is_terminal
